@@ -5,6 +5,7 @@ through the real ThetaHolder.save_h5 / load_h5 / concat / combine / add_theta / 
 through batchie.cli.evaluate_model.main() (in-process), and compared bytewise with what went in."""
 import itertools
 import logging
+import math
 import os
 import shutil
 import struct
@@ -117,6 +118,12 @@ def build_table(spec_table, ns, nt):
     if spec_table == "empty":
         return {}
     keys = table_keys(ns, nt)
+    if isinstance(spec_table, list) and spec_table[0] == "order":
+        # same content as "full", inserted in another order (a dict built by user code, not by batchie's nested loops)
+        vals = {k: (1.0 if k[1] == -1 else 0.05 + 0.9 * _g(i)) for i, k in enumerate(keys)}
+        n = len(keys)
+        order = list(reversed(keys)) if spec_table[1] == "reversed" else [keys[(i * 7 + 3) % n] for i in range(n)] if math.gcd(7, n) == 1 else keys[1::2] + keys[0::2]
+        return {k: vals[k] for k in order}
     out = {}
     for i, (s, t) in enumerate(keys):
         if spec_table == "full":
@@ -253,6 +260,9 @@ def roundtrip_specs(tier):
             out.append(coll_spec(INT, shape, n, table="empty", what="empty-table"))
     for r in range(len(SPECIAL_NAMES)):
         out.append(coll_spec(INT, (2, 3, 2), 2, table=["rot", r], what="special-table"))
+    for shape in shapes:
+        for how in ("reversed", "scrambled"):
+            out.append(coll_spec(INT, shape, 2, table=["order", how], what="table-insertion-order"))
     return out
 
 
